@@ -81,7 +81,7 @@ static rc::Gen<Op> gen_op_from(const std::map<int, double> &w, int nmods, const 
         case P::O_BATCH_SIZE: ga = gens::weighted_values<long>({{2, 0}, {1, 1}, {4, 2}, {3, 3}, {2, 5}, {1, -1}}); break;
         case P::O_BATCH_TIMEOUT: ga = gens::weighted_values<long>({{2, 0}, {2, 2}, {1, 5}}); break;
         case P::O_FD_REG: ga = gens::range<long>(0, 8); gb = (prop == "C20" || prop == "C04") ? gens::weighted_values<long>({{3, 0}, {3, 1}, {2, 2}, {2, 4}, {1, 5}, {1, 6}}) : gens::weighted_values<long>({{6, 0}, {1, 1}, {2, 4}});
-            gb = gen::map(gen::pair(gb, gens::weighted_values<long>({{24, 0}, {1, 1}, {1, 2}, {2, 3}})), [](std::pair<long, long> p) { return p.first + 256 * p.second; }); break;
+            gb = gen::map(gen::pair(gb, gens::weighted_values<long>({{24, 0}, {1, 1}, {1, 2}, {2, 3}, {2, 4}})), [](std::pair<long, long> p) { return p.first + 256 * p.second; }); break;
         case P::O_FD_DEREG: case P::O_FD_WRITE: case P::O_FD_READ: ga = gens::range<long>(0, 8); break;
         case P::O_TMR_REG: ga = gens::range<long>(0, 6); gb = gen::map(gen::pair(gens::weighted_values<long>({{4, 0}, {1, 1}, {1, 3}, {2, 4}}), gens::weighted_values<long>({{24, 0}, {1, 1}, {1, 2}, {2, 3}})), [](std::pair<long, long> p) { return p.first + 256 * p.second; }); break;
         case P::O_TMR_DEREG: ga = gens::range<long>(0, 6); break;
